@@ -74,7 +74,7 @@ def gen_cases(tier, seed):
                 sig.append({'kind': 'process', 'ending': ['signal', s, phase], 'first': acc})
     # killed while it is logging without pause (its log pipe is full; the kill lands in the middle of handing records to the parent)
     for s in ('SIGKILL', 'SIGTERM', 'SIGSEGV'):
-        for size in (50, 9000):
+        for size in (50, 9000, 300_000):
             for acc in ('join', 'wait', 'exception'):
                 sig.append({'kind': 'process', 'ending': ['signal', s, 'logging', size], 'first': acc})
     for acc in ('join', 'result', 'exception', 'wait', 'as_completed'):
@@ -184,12 +184,14 @@ def run_case(case):
         else:
             w = mt.Thread(target=targets.c12_target, args=(spec,))
     if ending[0] == 'signal' and ending[2] == 'logging':
-        # the parent's handler for these records takes 1 ms per record (a file, a socket): the child is ahead of it
+        # the parent's handler for these records takes 1-20 ms per record (a file, a socket): the child is ahead of it
         import logging
+
+        slow_s = 0.001 if ending[3] < 1000 else 0.02  # slow enough that the child, not the parent, waits: the log pipe stays full
 
         class _Slow(logging.Handler):
             def emit(self, record):
-                time.sleep(0.001)
+                time.sleep(slow_s)
                 obs['log_records_handled'] = obs.get('log_records_handled', 0) + 1
 
         plg = logging.getLogger('vf.c12.loop')
